@@ -15,8 +15,14 @@ from typing import Any, Dict, Iterable, List, Optional, Tuple
 REPO = os.environ.get("VF_REPO", "/repo")
 FIX = os.path.join(REPO, "test", "fixtures")
 
-# scrub the environment the code under test sees: no user config, no surprises
-os.environ.setdefault("SQLFLUFF_VERIF_HOME", "1")
+# the code under test logs warnings (and tracebacks of caught rule errors) on stderr: keep the checks' output clean
+import logging as _logging
+
+for _name in ("sqlfluff", "sqlfluff.linter", "sqlfluff.rules", "sqlfluff.templater", "sqlfluff.parser", "sqlfluff.lexer"):
+    _lg = _logging.getLogger(_name)
+    _lg.setLevel(_logging.CRITICAL + 10)
+    _lg.addHandler(_logging.NullHandler())
+    _lg.propagate = False
 
 
 def read(path: str) -> str:
